@@ -3,6 +3,7 @@ package w
 import (
 	"encoding/json"
 	"fmt"
+	"github.com/orda-io/orda/client/pkg/errors"
 	"sort"
 	"strconv"
 	"strings"
@@ -408,6 +409,23 @@ func (m *e1Machine) Enabled() []pt.Action {
 			if maySkip {
 				as = append(as, pt.Action{Op: "tx", R: i, Sub: ackBody, Fail: true})
 			}
+			if m.w.typ == model.TypeOfDatatype_DOCUMENT {
+				// a body that patches the document to a target (several operations: Patch opens a transaction of its own
+				// inside the running one), alone and next to another call
+				pb := pt.Action{Op: "patch", R: i, V: `{"a":"P1","b":["P2","P3"]}`}
+				for _, b := range [][]pt.Action{{pb}, {calls[0], pb}, {pb, calls[0]}} {
+					as = append(as, pt.Action{Op: "tx", R: i, Sub: b})
+					if maySkip {
+						as = append(as, pt.Action{Op: "tx", R: i, Sub: b, Fail: true})
+					}
+				}
+				if maySkip {
+					// a patch whose second operation is refused (a null member), in a body that goes on and returns nil: the
+					// patch is one unit, so either the transaction fails as a whole or it commits without any of the patch
+					bad := pt.Action{Op: "patch", R: i, V: badPatchTarget}
+					as = append(as, pt.Action{Op: "tx", R: i, Sub: []pt.Action{bad}}, pt.Action{Op: "tx", R: i, Sub: []pt.Action{calls[0], bad}})
+				}
+			}
 			for _, c := range calls {
 				bodies := [][]pt.Action{{c}, {c, calls[0]}}
 				if inv, ok := invalidCall(m.w, i); ok {
@@ -487,7 +505,7 @@ func (m *e1Machine) Apply(a pt.Action) *pt.Violation {
 	}
 	v := m.apply1(a)
 	st := twinStep{a: a, tags: m.w.reps[a.R].nloc - tag0}
-	if a.Op == "tx" && a.Fail {
+	if a.Op == "tx" && (a.Fail || (hasBadPatch(a) && m.w.last.Err != "")) {
 		st.skip = true
 	}
 	m.hist = append(m.hist, st)
@@ -1068,7 +1086,7 @@ func (m *e1Machine) checkTx(a pt.Action, before string, npend0 int) *pt.Violatio
 	if m.w.last.Panic != "" {
 		return nil
 	}
-	if a.Fail {
+	if a.Fail || (hasBadPatch(a) && m.w.last.Err != "") {
 		if after := m.fullState(); after != before {
 			return viol("C09:failed-transaction-changed-state:"+m.w.P.Type+":"+diffField(after, before),
 				"%s returned an error but the world changed; first difference at %s", a, firstDiff(after, before))
@@ -1099,6 +1117,17 @@ func (m *e1Machine) checkTx(a pt.Action, before string, npend0 int) *pt.Violatio
 		}
 	}
 	return nil
+}
+
+const badPatchTarget = `{"a":"P1","zz":null}`
+
+func hasBadPatch(a pt.Action) bool {
+	for _, s := range a.Sub {
+		if s.Op == "patch" && s.V == badPatchTarget {
+			return true
+		}
+	}
+	return false
 }
 
 // nextUnit returns the next unit in the log that replica i has not received (nil if none or own).
@@ -1203,6 +1232,16 @@ func (m *e1Machine) restore(i int) *pt.Violation {
 	}
 	if ierr != nil {
 		return viol("C10:import-failed", "import of replica %d's export failed: %v", i, ierr)
+	}
+	// the imported state is the instance's new rollback point, as on every import path of the SDK (a subscriber that
+	// received its first state re-takes the point, and so does a rollback after its own import); the import call alone
+	// leaves the point where it was - before the import - see DESIGN.md 11.10
+	if rt, ok := nr.dt.(interface{ ResetTransaction() errors.OrdaError }); ok {
+		if e := rt.ResetTransaction(); e != nil {
+			return viol("C10:import-failed", "re-taking the rollback point after the import of replica %d's export failed: %v", i, e)
+		}
+	} else {
+		return viol("E1:harness:no-reset-transaction", "datatype %T does not expose ResetTransaction", nr.dt)
 	}
 	// the restored instance continues the old one's numbering; its buffer starts empty, which is
 	// what the old one's buffer looks like from the push side when nothing is pending
